@@ -48,6 +48,17 @@ fn add(a: &S, b: &S) -> S { let mut x = *a; x.add_assign(b); x }
 fn mul(a: &S, b: &S) -> S { let mut x = *a; x.mul_assign(b); x }
 fn su(n: u64) -> S { C::scalar_from_u64(n) }
 
+/// append one element to the vector described by `e` inside the serialized response `rb`
+fn extend_vec(rb: &[u8], e: &(String, usize, usize, usize, Vec<u8>)) -> Vec<u8> {
+    let (_, poff, plen, at, extra) = e;
+    let mut out = rb[..*at].to_vec(); out.extend_from_slice(extra); out.extend_from_slice(&rb[*at..]);
+    let mut cnt: u64 = 0; for b in &rb[*poff..*poff + *plen] { cnt = (cnt << 8) | *b as u64; }
+    cnt += 1;
+    for i in 0..*plen { out[*poff + i] = (cnt >> (8 * (*plen - 1 - i))) as u8; }
+    out
+}
+fn junk32() -> Vec<u8> { to_bytes(&su(0x1234567)) }
+
 #[derive(Clone)]
 struct Ctx { dom: Vec<u8>, ops: Vec<(Vec<u8>, Option<Vec<u8>>)> }
 impl Ctx {
@@ -92,6 +103,9 @@ struct Fam<P: SigmaProtocol> {
     /// truncated-response attack: a statement with one more vector item (junk the prover knows nothing
     /// about); the crafted prover hashes the FULL statement but commits/responds for the small one.
     attack: Option<(Vec<S>, Box<dyn Fn(&[S]) -> P>)>,
+    /// the vectors inside the serialized response: (name, offset of the count, bytes of the count, where the
+    /// vector ends, one more serialized element).  Used to append a SURPLUS element to one vector at a time.
+    ext: Vec<(String, usize, usize, usize, Vec<u8>)>,
 }
 
 fn run_kind<P: SigmaProtocol, T: Tk, U: Tk>(f: &Fam<P>, r: &mut Rng, seed: u64) {
@@ -169,6 +183,12 @@ fn run_kind<P: SigmaProtocol, T: Tk, U: Tk>(f: &Fam<P>, r: &mut Rng, seed: u64) 
                 pert.push(json!([format!("resp{}", j), rej(vfy(&ctx, &f.pubs, &p2)), same])) }
             Err(_) => pert.push(json!([format!("resp{}", j), true, false])) }
     }
+    for e in &f.ext { // a SURPLUS element appended to one response vector: must be rejected
+        let mut pb = proof.challenge.as_ref().to_vec(); pb.extend_from_slice(&extend_vec(&rb, e));
+        match from_bytes::<SigmaProof<P::Response>, _>(&mut std::io::Cursor::new(&pb)) {
+            Ok(p2) => pert.push(json!([format!("extend_{}", e.0), rej(vfy(&ctx, &f.pubs, &p2)), false])),
+            Err(_) => pert.push(json!([format!("extend_{}", e.0), true, false])) }
+    }
     o.insert("pert".into(), json!(pert));
     if let Some((pubs_full, mk_full)) = &f.attack {
         let res = guarded(|| {
@@ -182,9 +202,20 @@ fn run_kind<P: SigmaProtocol, T: Tk, U: Tk>(f: &Fam<P>, r: &mut Rng, seed: u64) 
             let resp = stmt.compute_response((f.mkw)(&f.wit), st, &c)?;
             let crafted = SigmaProof { challenge: ch, response: resp };
             let mut ro2: T = mk_ro(&ctx);
-            Some(verify(&mut ro2, &full, &crafted))
+            let acc = verify(&mut ro2, &full, &crafted);
+            // the same crafted proof with ONE response vector padded back to the full length (the others stay short):
+            // catches a verifier that checks only some of the vector lengths and zips the rest
+            let cb = to_bytes(&crafted.response);
+            let mut padded = vec![];
+            for e in &f.ext {
+                let mut pb = ch.as_ref().to_vec(); pb.extend_from_slice(&extend_vec(&cb, e));
+                let a2 = match from_bytes::<SigmaProof<P::Response>, _>(&mut std::io::Cursor::new(&pb)) {
+                    Ok(p2) => { let mut ro3: T = mk_ro(&ctx); json!(verify(&mut ro3, &full, &p2)) } Err(_) => json!(false) };
+                padded.push(json!([e.0, a2]));
+            }
+            Some((acc, padded))
         });
-        o.insert("trunc_attack".into(), match res { Ok(Some(acc)) => json!({"accepted": acc}), Ok(None) => json!({"accepted": false, "note": "prover None"}), Err(e) => json!({"accepted": "PANIC", "why": e}) });
+        o.insert("trunc_attack".into(), match res { Ok(Some((acc, padded))) => json!({"accepted": acc, "padded": padded}), Ok(None) => json!({"accepted": false, "note": "prover None"}), Err(e) => json!({"accepted": "PANIC", "why": e}) });
     }
     println!("{}", base);
 }
@@ -224,7 +255,7 @@ fn fam_dlog(g: &mut Gen) -> Fam<Dlog<C>> {
     let coeff = g.gen(); let w = g.w();
     Fam { name: "dlog".into(), n: 1, variant: g.var.name().into(), pubs: vec![mul(&w, &coeff), coeff], wit: vec![w],
         mk: Box::new(|p| Dlog { public: pt(&p[0]), coeff: pt(&p[1]) }),
-        mkw: Box::new(|w| DlogSecret { secret: val(&w[0]) }), offs: vec![0], expect_panic: false, attack: None }
+        mkw: Box::new(|w| DlogSecret { secret: val(&w[0]) }), offs: vec![0], expect_panic: false, attack: None, ext: vec![] }
 }
 fn fam_aggdlog(g: &mut Gen, n: usize) -> Fam<AggregateDlog<C>> {
     let coeff: Vec<S> = (0..n).map(|_| g.gen()).collect(); let ws: Vec<S> = (0..n).map(|_| g.w()).collect();
@@ -234,14 +265,15 @@ fn fam_aggdlog(g: &mut Gen, n: usize) -> Fam<AggregateDlog<C>> {
     Fam { name: "aggregate_dlog".into(), n, variant: g.var.name().into(), pubs, wit: ws,
         mk: Box::new(|p| AggregateDlog { public: pt(&p[0]), coeff: p[1..].iter().map(pt).collect() }),
         mkw: Box::new(|w| w.iter().map(|x| Rc::new(*x)).collect()), offs: (0..n).map(|i| 4 + 32 * i).collect(), expect_panic: false,
-        attack: Some(({ let mut f = pubs_a.clone(); f.push(junk); f }, Box::new(|p| AggregateDlog { public: pt(&p[0]), coeff: p[1..].iter().map(pt).collect() }))) }
+        attack: Some(({ let mut f = pubs_a.clone(); f.push(junk); f }, Box::new(|p| AggregateDlog { public: pt(&p[0]), coeff: p[1..].iter().map(pt).collect() }))),
+        ext: vec![("response".into(), 0, 4, 4 + 32 * n, junk32())] }
 }
 fn fam_comeq(g: &mut Gen) -> Fam<ComEq<C, C>> {
     let (gk, hk, gg) = (g.gen(), g.gen(), g.gen()); let (a, rr) = (g.w(), g.w());
     let commitment = add(&mul(&a, &gk), &mul(&rr, &hk)); let y = mul(&a, &gg);
     Fam { name: "com_eq".into(), n: 1, variant: g.var.name().into(), pubs: vec![commitment, y, gk, hk, gg], wit: vec![rr, a],
         mk: Box::new(|p| ComEq { commitment: cmm(&p[0]), y: pt(&p[1]), cmm_key: CommitmentKey { g: pt(&p[2]), h: pt(&p[3]) }, g: pt(&p[4]) }),
-        mkw: Box::new(|w| ComEqSecret { r: prand(&w[0]), a: val(&w[1]) }), offs: vec![0, 32], expect_panic: false, attack: None }
+        mkw: Box::new(|w| ComEqSecret { r: prand(&w[0]), a: val(&w[1]) }), offs: vec![0, 32], expect_panic: false, attack: None, ext: vec![] }
 }
 fn fam_comenceq(g: &mut Gen) -> Fam<ComEncEq<C>> {
     let (pg, pk, ckg, ckh, hin) = (g.gen(), g.gen(), g.gen(), g.gen(), g.gen()); let (x, er, pr) = (g.w(), g.w(), g.w());
@@ -250,7 +282,7 @@ fn fam_comenceq(g: &mut Gen) -> Fam<ComEncEq<C>> {
         mk: Box::new(|p| ComEncEq { cipher: Cipher(pt(&p[0]), pt(&p[1])), commitment: cmm(&p[2]), pub_key: ElgPk { generator: pt(&p[3]), key: pt(&p[4]) },
             cmm_key: CommitmentKey { g: pt(&p[5]), h: pt(&p[6]) }, encryption_in_exponent_generator: pt(&p[7]) }),
         mkw: Box::new(|w| ComEncEqSecret { value: val(&w[0]), elgamal_rand: ElgRand::new(w[1]), pedersen_rand: prand(&w[2]) }),
-        offs: vec![0, 32, 64], expect_panic: false, attack: None }
+        offs: vec![0, 32, 64], expect_panic: false, attack: None, ext: vec![] }
 }
 fn fam_commult(g: &mut Gen) -> Fam<ComMult<C>> {
     let (gg, hh) = (g.gen(), g.gen()); let (x1, x2, r1, r2, r3) = (g.w(), g.w(), g.w(), g.w(), g.w());
@@ -259,7 +291,7 @@ fn fam_commult(g: &mut Gen) -> Fam<ComMult<C>> {
     Fam { name: "com_mult".into(), n: 1, variant: g.var.name().into(), pubs, wit: vec![x1, x2, r1, r2, r3],
         mk: Box::new(|p| ComMult { cmms: [cmm(&p[0]), cmm(&p[1]), cmm(&p[2])], cmm_key: CommitmentKey { g: pt(&p[3]), h: pt(&p[4]) } }),
         mkw: Box::new(|w| ComMultSecret { values: [val(&w[0]), val(&w[1])], rands: [prand(&w[2]), prand(&w[3]), prand(&w[4])] }),
-        offs: vec![0, 32, 64, 96, 128], expect_panic: false, attack: None }
+        offs: vec![0, 32, 64, 96, 128], expect_panic: false, attack: None, ext: vec![] }
 }
 fn mk_comlin(n: usize) -> Box<dyn Fn(&[S]) -> ComLin<C>> {
     Box::new(move |p| ComLin { us: p[..n].to_vec(), cmms: p[n..2 * n].iter().map(cmm).collect(), cmm: cmm(&p[2 * n]),
@@ -279,7 +311,8 @@ fn fam_comlin(g: &mut Gen, n: usize) -> Fam<ComLin<C>> {
     Fam { name: "com_lin".into(), n, variant: g.var.name().into(), pubs, wit,
         mk: mk_comlin(n),
         mkw: Box::new(move |w| ComLinSecret::verif_new(w[..n].iter().map(val).collect(), w[n..2 * n].iter().map(prand).collect(), prand(&w[2 * n]))),
-        offs, expect_panic: false, attack: Some((full, mk_comlin(n + 1))) }
+        offs, expect_panic: false, attack: Some((full, mk_comlin(n + 1))),
+        ext: vec![("zs".into(), 0, 4, 4 + 32 * n, junk32()), ("ss".into(), 4 + 32 * n, 4, 8 + 64 * n, junk32())] }
 }
 fn fam_comeqdiff(g: &mut Gen) -> Fam<ComEqDiffGroups<C, C>> {
     let (g1, h1, g2, h2) = (g.gen(), g.gen(), g.gen(), g.gen()); let (x, r1, r2) = (g.w(), g.w(), g.w());
@@ -287,7 +320,7 @@ fn fam_comeqdiff(g: &mut Gen) -> Fam<ComEqDiffGroups<C, C>> {
     Fam { name: "com_eq_different_groups".into(), n: 1, variant: g.var.name().into(), pubs: vec![c1, c2, g1, h1, g2, h2], wit: vec![x, r1, r2],
         mk: Box::new(|p| ComEqDiffGroups { commitment_1: cmm(&p[0]), commitment_2: cmm(&p[1]), cmm_key_1: CommitmentKey { g: pt(&p[2]), h: pt(&p[3]) }, cmm_key_2: CommitmentKey { g: pt(&p[4]), h: pt(&p[5]) } }),
         mkw: Box::new(|w| ComEqDiffGroupsSecret { value: val(&w[0]), rand_cmm_1: prand(&w[1]), rand_cmm_2: prand(&w[2]) }),
-        offs: vec![0, 32, 64], expect_panic: false, attack: None }
+        offs: vec![0, 32, 64], expect_panic: false, attack: None, ext: vec![] }
 }
 fn mk_vcomeq(n: usize, idx: Vec<usize>) -> Box<dyn Fn(&[S]) -> VecComEq<C>> {
     let m = idx.len();
@@ -312,7 +345,9 @@ fn fam_vcomeq(g: &mut Gen, n: usize) -> Fam<VecComEq<C>> {
     Fam { name: "vcom_eq".into(), n, variant: g.var.name().into(), pubs, wit,
         mk: mk_vcomeq(n, idx2.clone()),
         mkw: Box::new(move |w| (w[..n].to_vec(), val(&w[n]), idx3.iter().enumerate().map(|(j, &i)| (i as u8, val(&w[n + 1 + j]))).collect::<BTreeMap<_, _>>())),
-        offs, expect_panic: false, attack: Some((full, mk_vcomeq(n + 1, idx.clone()))) }
+        offs, expect_panic: false, attack: Some((full, mk_vcomeq(n + 1, idx.clone()))),
+        ext: vec![("sis".into(), 0, 2, 2 + 32 * n, junk32()),
+                  ("tis".into(), 2 + 32 * n + 32, 2, 2 + 32 * n + 32 + 2 + 33 * m, { let mut e = vec![200u8]; e.extend(junk32()); e })] }
 }
 fn fam_and(g: &mut Gen) -> Fam<AndAdapter<Dlog<C>, ComEq<C, C>>> {
     let a = fam_dlog(g); let b = fam_comeq(g);
@@ -320,7 +355,7 @@ fn fam_and(g: &mut Gen) -> Fam<AndAdapter<Dlog<C>, ComEq<C, C>>> {
     let (amk, bmk, amw, bmw) = (a.mk, b.mk, a.mkw, b.mkw);
     Fam { name: "and(dlog,com_eq)".into(), n: 2, variant: g.var.name().into(), pubs, wit,
         mk: Box::new(move |p| AndAdapter { first: amk(&p[..2]), second: bmk(&p[2..]) }),
-        mkw: Box::new(move |w| (amw(&w[..1]), bmw(&w[1..]))), offs: vec![0, 32, 64], expect_panic: false, attack: None }
+        mkw: Box::new(move |w| (amw(&w[..1]), bmw(&w[1..]))), offs: vec![0, 32, 64], expect_panic: false, attack: None, ext: vec![] }
 }
 fn fam_rep(g: &mut Gen, n: usize) -> Fam<ReplicateAdapter<Dlog<C>>> {
     let mut pubs = vec![]; let mut wit = vec![];
@@ -330,7 +365,8 @@ fn fam_rep(g: &mut Gen, n: usize) -> Fam<ReplicateAdapter<Dlog<C>>> {
         mk: Box::new(|p| ReplicateAdapter { protocols: p.chunks(2).map(|q| Dlog { public: pt(&q[0]), coeff: pt(&q[1]) }).collect() }),
         mkw: Box::new(|w| w.iter().map(|x| DlogSecret { secret: val(x) }).collect()),
         offs: (0..n).map(|i| 4 + 32 * i).collect(), expect_panic: n == 0,
-        attack: if n == 0 { None } else { Some((full, Box::new(|p| ReplicateAdapter { protocols: p.chunks(2).map(|q| Dlog { public: pt(&q[0]), coeff: pt(&q[1]) }).collect() }))) } }
+        attack: if n == 0 { None } else { Some((full, Box::new(|p| ReplicateAdapter { protocols: p.chunks(2).map(|q| Dlog { public: pt(&q[0]), coeff: pt(&q[1]) }).collect() }))) },
+        ext: if n == 0 { vec![] } else { vec![("responses".into(), 0, 4, 4 + 32 * n, junk32())] } }
 }
 
 fn mk_comeq_item(p: &[S]) -> ComEq<C, C> {
@@ -369,7 +405,9 @@ fn fam_enctrans(g: &mut Gen, n: usize) -> Fam<EncTrans<C>> {
         mkw: Box::new(move |w| EncTransSecret { dlog_secret: Rc::new(w[0]),
             encexp1_secrets: (0..n).map(|i| ComEqSecret { r: prand(&w[1 + 2 * i]), a: val(&w[2 + 2 * i]) }).collect(),
             encexp2_secrets: (0..n).map(|i| ComEqSecret { r: prand(&w[1 + 2 * n + 2 * i]), a: val(&w[2 + 2 * n + 2 * i]) }).collect() }),
-        offs, expect_panic: false, attack: Some((full, mk_enc(n + 1, n))) }
+        offs, expect_panic: false, attack: Some((full, mk_enc(n + 1, n))),
+        ext: vec![("encexp1".into(), 32, 4, 36 + 64 * n, { let mut e = junk32(); e.extend(junk32()); e }),
+                  ("encexp2".into(), 36 + 64 * n, 4, 40 + 128 * n, { let mut e = junk32(); e.extend(junk32()); e })] }
 }
 
 fn mk_ces(n: usize, l: usize) -> Box<dyn Fn(&[S]) -> ComEqSig<IpPairing, C>> {
@@ -402,7 +440,8 @@ fn fam_comeqsig(g: &mut Gen, n: usize, extra: usize) -> Fam<ComEqSig<IpPairing, 
         mk: mk_ces(n, l),
         mkw: Box::new(move |w| ComEqSigSecret { blind_rand: BlindingRandomness(Secret::new(su(1)), Secret::new(w[0])),
             values_and_rands: (0..n).map(|i| (val(&w[1 + 2 * i]), prand(&w[2 + 2 * i]))).collect() }),
-        offs, expect_panic: false, attack: if extra >= 1 { Some((full, mk_ces(n + 1, l))) } else { None } }
+        offs, expect_panic: false, attack: if extra >= 1 { Some((full, mk_ces(n + 1, l))) } else { None },
+        ext: vec![("response_commit".into(), 32, 4, 36 + 64 * n, { let mut e = junk32(); e.extend(junk32()); e })] }
 }
 
 /// ps_sig_known with n messages of kinds i % 3 = 0: EqualToCommitment, 1: Public, 2: Known, key length l = n + extra.
@@ -439,7 +478,8 @@ fn fam_pssig(g: &mut Gen, n: usize, extra: usize) -> Fam<PsSigKnown<IpPairing, C
         mk: mk_pssig(n, l),
         mkw: Box::new(move |w| PsSigWitness { r_prime: Secret::new(w[0]),
             msgs: (0..n).map(|i| match i % 3 { 0 => PsSigWitnessMsg::EqualToCommitment(val(&w[1 + 2 * i]), prand(&w[2 + 2 * i])), 1 => PsSigWitnessMsg::Public, _ => PsSigWitnessMsg::Known(val(&w[1 + 2 * i])) }).collect() }),
-        offs, expect_panic: false, attack: if extra >= 1 { Some((full, mk_pssig(n + 1, l))) } else { None } }
+        offs, expect_panic: false, attack: if extra >= 1 { Some((full, mk_pssig(n + 1, l))) } else { None },
+        ext: vec![("resp_msgs_known".into(), 32, 4, o, { let mut e = vec![2u8]; e.extend(junk32()); e }), ("resp_msgs_public".into(), 32, 4, o, vec![1u8])] }
 }
 
 fn cases(seed: u64, budget: u64) {
